@@ -1113,8 +1113,10 @@ Definition step_stmt (c0 : ctx) : prog out :=
         let c1 := skip 1 c in
         let* '(cond, c2) := (if is_k KDo c1 then ok (EBool true, c1) else expression c1) in
         let* '(body, c3) := statement c2 in
+        (* the body consumed the newline that also ends this statement - unless it was ended by an
+           `end`/`else`/`elif` on the same line: step back only onto a newline *)
         match prev c3 with
-        | Some cp => ok (SLoop cond body, cp)
+        | Some cp => ok (SLoop cond body, if is_k KNewline cp then cp else c3)
         | None => panic
         end
     | (TIdent nm, TK KColonColon, TK KEnum) => stmt_enum nm c
